@@ -349,7 +349,7 @@ include hI hR hK hE in
 /-- **refinement, one pull, logs recomputed.** When both logs are the logs of the stored content (C09: after a
     recomputation with nothing pending), the rows and node deletion records of the puller after `synchronise_room`
     of the intended behaviour are the join of what it held with what the source holds for that room. -/
-theorem pull_refines_join (hS : d.summaryFirstEntityOnly = false) {rights : List Bool} (hA : AllRights rights)
+theorem pull_refines_join (hS : d.summaryFirstEntityOnly = false) {rights : Rights} (hA : AllRights rights)
     {dst src : Replica} (hzd : NoZombie dst) (hzs : NoZombie src) (hnd : IdsNodup dst) (hns : IdsNodup src)
     (hpk : PkFun (fun x => x ∈ dst.ntombs ∨ x ∈ src.ntombs))
     (hld : IsLogOf dst.sigs dst.log) (hls : IsLogOf src.sigs src.log) (hsig : SigsDetermine dst src) (room : Nat) :
